@@ -64,7 +64,7 @@ private:
         if (xdb >= (T_ + W_ / 2)) {
             xsc = T_ + (xdb - T_) / R_;
         } else if ((xdb > (T_ - W_ / 2)) && (xdb < (T_ + W_ / 2))) {
-            xsc = xdb + (1 / R_ - 1) * abs2(xdb - T_ + W_ / 2) / (2 * W_);
+            xsc = xdb + (real_t(1) / R_ - 1) * abs2(xdb - T_ + W_ / 2) / (2 * W_);
         }
         return (xsc - xdb);
     }
